@@ -478,31 +478,31 @@ theorem MidIns.step_data {w wa wb : World α} {c lo hi n' : Nat} (h : MidIns w w
     MidIns w wb c lo hi n' :=
   ⟨h.ctl0.trans hc, by rw [hh]; exact h.hdr, hobj, hraw, fun b i hne hc' => by rw [hs b i hne hc']; exact h.rest b i hne hc'⟩
 
-/-- roll-back of a failed fill after shift_into_uninitialized: move the tail back, destroy the k leftovers, restore the
-    size, rethrow; if a move assignment of the roll-back itself throws the container keeps size n + k -/
-theorem rollbackShift_sat (cfg : Cfg) (c pos k : Nat) (e : Exc) (w0 w : World α) (lo n : Nat)
-    (hk : 0 < k) (hpk : pos + k ≤ n) (hlo : lo ≤ pos) (hsz : (w.hdr c).size = n + k)
-    (hd : (w.hdr c).data = (w0.hdr c).data) (hm : MidIns w0 w c lo (n + k) (n + k)) :
-    (rollbackShift cfg c pos (pos + k) k e w : Res (World α) Unit).sat (fun _ _ => False)
-      (fun _ w' => ∃ n', (n' = n ∨ n' = n + k) ∧ MidIns w0 w' c lo (n + k) n' ∧
-          (∀ (b i : Nat), ¬ (b = (w.hdr c).data ∧ lo ≤ i ∧ i < n + k) → (w'.mem b)[i]? = (w.mem b)[i]?) ∧ Ctl0 w w') := by
+/-- roll-back of a failed fill: move the shifted tail [ie, S) back to `pos`, destroy the `drop` leftovers at the end,
+    restore the size, rethrow; if a move assignment of the roll-back itself throws the container keeps size S -/
+theorem rollbackShift_sat (cfg : Cfg) (c pos ie drop : Nat) (e : Exc) (w0 w : World α) (lo hi S : Nat)
+    (hpos : pos < ie) (hie : ie ≤ S) (hdrop : drop ≤ S) (hpd : pos ≤ S - drop) (hlo : lo ≤ pos) (hhi : S ≤ hi) (hsz : (w.hdr c).size = S)
+    (hd : (w.hdr c).data = (w0.hdr c).data) (hm : MidIns w0 w c lo hi S) :
+    (rollbackShift cfg c pos ie drop e w : Res (World α) Unit).sat (fun _ _ => False)
+      (fun _ w' => ∃ n', (n' = S - drop ∨ n' = S) ∧ MidIns w0 w' c lo hi n' ∧
+          (∀ (b i : Nat), ¬ (b = (w.hdr c).data ∧ lo ≤ i ∧ i < S) → (w'.mem b)[i]? = (w.mem b)[i]?) ∧ Ctl0 w w') := by
   unfold rollbackShift
   rw [bind_run, getV_run]
   simp only []
   rw [hsz]
   generalize hdd : (w.hdr c).data = d at *
-  have hobj : ∀ i, i < n + k → IsObj w d i := fun i hi => by rw [hd]; exact hm.objs i hi
-  have hml := moveLeft_sat cfg d (n + k - (pos + k)) (pos + k) pos w (by omega) (fun j _ h2 => hobj j (by omega))
+  have hobj : ∀ i, i < S → IsObj w d i := fun i hi' => by rw [hd]; exact hm.objs i hi'
+  have hml := moveLeft_sat cfg d (S - ie) ie pos w hpos (fun j _ h2 => hobj j (by omega))
   refine sat_bind hml (fun _ w1 ⟨ht1, _⟩ => ?_) ?_
-  · have hobj1 : ∀ i, n + k - k ≤ i → i < n + k - k + k → IsObj w1 d i := fun i _ h2 => ht1.isObj (hobj i (by omega))
-    refine sat_bind (destroyRange_sat cfg d k (n + k - k) w1 hobj1) (fun _ w2 ⟨hc2, hraw2, hrest2⟩ => ?_) (fun _ _ h => h.elim)
-    have hss : setSize c (n + k - k) w2 = .ok () { w2 with hdr := upd w2.hdr c { w2.hdr c with size := n + k - k } } := rfl
+  · have hobj1 : ∀ i, S - drop ≤ i → i < S - drop + drop → IsObj w1 d i := fun i _ h2 => ht1.isObj (hobj i (by omega))
+    refine sat_bind (destroyRange_sat cfg d drop (S - drop) w1 hobj1) (fun _ w2 ⟨hc2, hraw2, hrest2⟩ => ?_) (fun _ _ h => h.elim)
+    have hss : setSize c (S - drop) w2 = .ok () { w2 with hdr := upd w2.hdr c { w2.hdr c with size := S - drop } } := rfl
     rw [bind_run, hss]
     simp only []
     show ∃ n', _
-    generalize hw3 : ({ w2 with hdr := upd w2.hdr c { w2.hdr c with size := n + k - k } } : World α) = w3
+    generalize hw3 : ({ w2 with hdr := upd w2.hdr c { w2.hdr c with size := S - drop } } : World α) = w3
     have hmem3 : w3.mem = w2.mem := by subst hw3; rfl
-    have hslot : ∀ (b i : Nat), ¬ (b = d ∧ pos ≤ i ∧ i < n + k) → (w3.mem b)[i]? = (w.mem b)[i]? := by
+    have hslot : ∀ (b i : Nat), ¬ (b = d ∧ pos ≤ i ∧ i < S) → (w3.mem b)[i]? = (w.mem b)[i]? := by
       intro b i hne
       rw [hmem3, hrest2 b i (by intro ⟨a1, a2, a3⟩; exact hne ⟨a1, by omega, by omega⟩)]
       exact ht1.same b i (by intro ⟨a1, a2, a3⟩; exact hne ⟨a1, a2, by omega⟩)
@@ -510,7 +510,7 @@ theorem rollbackShift_sat (cfg : Cfg) (c pos k : Nat) (e : Exc) (w0 w : World α
       have h1 := ht1.ctl.to0.trans hc2.to0
       subst hw3
       exact ⟨h1.owner, h1.live, h1.next, h1.ub, h1.ntmp, h1.len⟩
-    refine ⟨n, Or.inl rfl, ⟨hm.ctl0.trans hc03, ?_, ?_, ?_, ?_⟩, fun b i hne => hslot b i (by intro ⟨a1, a2, a3⟩; exact hne ⟨a1, by omega, a3⟩), hc03⟩
+    refine ⟨S - drop, Or.inl rfl, ⟨hm.ctl0.trans hc03, ?_, ?_, ?_, ?_⟩, fun b i hne => hslot b i (by intro ⟨a1, a2, a3⟩; exact hne ⟨a1, by omega, a3⟩), hc03⟩
     · subst hw3
       show upd w2.hdr c _ = _
       rw [hc2.hdr, ht1.ctl.hdr, hm.hdr]
@@ -518,20 +518,31 @@ theorem rollbackShift_sat (cfg : Cfg) (c pos k : Nat) (e : Exc) (w0 w : World α
       by_cases hx : x = c
       · subst hx; simp
       · simp [upd, hx]
-    · intro i hi
+    · intro i hi'
       rw [← hd]
       unfold IsObj; rw [hmem3]
       exact isObj_of_eq (hrest2 d i (by intro ⟨_, a, _⟩; omega)) (ht1.isObj (hobj i (by omega)))
     · intro i a b
       rw [← hd]
-      unfold IsRaw; rw [hmem3]
-      exact hraw2 i (by omega) (by omega)
+      by_cases hiS : i < S
+      · unfold IsRaw; rw [hmem3]
+        exact hraw2 i (by omega) (by omega)
+      · have := hm.raws i (by omega) b
+        rw [← hd] at this
+        exact isRaw_of_eq (hslot d i (by intro ⟨_, _, x⟩; exact hiS x)) this
     · intro b i hne hc'
-      rw [hslot b i (by rw [← hd] at hne; intro ⟨a1, a2, a3⟩; exact hne ⟨a1, by omega, a3⟩)]
-      exact hm.rest b i hne hc'
+      by_cases hin : b = d ∧ pos ≤ i ∧ i < S
+      · exact absurd ⟨by rw [← hd]; exact hin.1, by omega, by omega⟩ hne
+      · rw [hslot b i hin]
+        exact hm.rest b i hne hc'
   · intro e' w1 ⟨_, ht1⟩
-    refine ⟨n + k, Or.inr rfl, hm.step_data ht1.ctl.to0 ht1.ctl.hdr (fun i hi => by rw [← hd]; exact ht1.isObj (hobj i hi))
-      (fun i a b => by omega) (fun b i hne _ => ht1.same b i (by rw [← hd] at hne; intro ⟨a1, a2, a3⟩; exact hne ⟨a1, by omega, by omega⟩)),
+    refine ⟨S, Or.inr rfl, hm.step_data ht1.ctl.to0 ht1.ctl.hdr (fun i hi' => by rw [← hd]; exact ht1.isObj (hobj i hi'))
+      (fun i a b => by
+        rw [← hd]
+        have := hm.raws i a b
+        rw [← hd] at this
+        exact isRaw_of_eq (ht1.same d i (by intro ⟨_, _, x⟩; omega)) this)
+      (fun b i hne _ => ht1.same b i (by rw [← hd] at hne; intro ⟨a1, a2, a3⟩; exact hne ⟨a1, by omega, by omega⟩)),
       fun b i hne => ht1.same b i (by intro ⟨a1, a2, a3⟩; exact hne ⟨a1, by omega, by omega⟩), ht1.ctl.to0⟩
 
 /-- in-place insertion of k elements before `pos` when the tail has at least k elements: shift, then assign the new
@@ -604,12 +615,13 @@ theorem insertInPlaceSmall_sat (cfg : Cfg) (c pos : Nat) (srcs : List (Src α)) 
         rcases hp with ⟨a1, a2, a3⟩ | ⟨s, hs, hl'⟩
         · exact hne ⟨a1, by omega, by omega⟩
         · exact htmp s hs b i hl' (by assumption)))
-    have hrb := rollbackShift_sat cfg c pos srcs.length e w0 w4 lo n hk hpk hlo (by rw [ht4.ctl.hdr]; exact hsz3)
+    have hrb := rollbackShift_sat cfg c pos (pos + srcs.length) srcs.length e w0 w4 lo (n + srcs.length) (n + srcs.length)
+      (by omega) (by omega) (by omega) (by omega) hlo (Nat.le_refl _) (by rw [ht4.ctl.hdr]; exact hsz3)
       (by rw [ht4.ctl.hdr, hd3]; exact hd) hm4
     rw [show (w4.hdr c).data = d by rw [ht4.ctl.hdr]; exact hd3] at hrb
     refine Res.sat_mono hrb (fun _ _ h => h.elim) ?_
     intro _ w5 ⟨n', h1, h2, h3, h4⟩
-    refine ⟨n', h1, h2, ?_, hc3.trans (ht4.ctl.to0.trans h4)⟩
+    refine ⟨n', by omega, h2, ?_, hc3.trans (ht4.ctl.to0.trans h4)⟩
     intro b i hb ho
     have ho3 : IsObj w3 b i := isObj_of_eq (hrest3 b i (by intro ⟨a, _, _⟩; exact hb a)) ho
     exact isObj_of_eq (h3 b i (by intro ⟨a, _, _⟩; exact hb a)) (ht4.isObj ho3)
